@@ -56,6 +56,7 @@ enum Op {
     ToClient(usize, bool),
     Update(u64),
     ClientSet(usize, u8),
+    Exchange(usize),
 }
 
 /// Which connections an operation may legitimately disconnect, and with which class of reason.
@@ -243,7 +244,7 @@ impl Property for C12 {
             let cid = id as u64;
             let mut sc = [Cause::None; IDS];
             let mut pc = [Cause::None; IDS];
-            let kind = ctx.src.weighted(&[10, 6, 6, 2, 8, 5, 8, 10, 3, 10, 6, 6, 8, 8, 10, 10, 6, 8]);
+            let kind = ctx.src.weighted(&[10, 6, 6, 2, 8, 5, 8, 10, 3, 10, 6, 6, 8, 8, 10, 10, 6, 8, 10]);
             let op = match kind {
                 0 => {
                     if sys.sconn[id].is_none() {
@@ -500,6 +501,22 @@ impl Property for C12 {
                         p.client.update(Duration::from_millis(dt));
                     }
                     Op::Update(dt)
+                }
+                18 => {
+                    // everything both sides currently want to send is delivered (messages pile up in the receive buffers)
+                    sc[id] = Cause::PacketOrBudget;
+                    pc[id] = Cause::PacketOrBudget;
+                    if let Some(p) = sys.peers[id].as_mut() {
+                        if let Ok(pk) = sys.server.get_packets_to_send(cid) {
+                            for b in pk {
+                                p.client.process_packet(&b);
+                            }
+                        }
+                        for b in p.client.get_packets_to_send() {
+                            let _ = sys.server.process_packet_from(&b, cid);
+                        }
+                    }
+                    Op::Exchange(id)
                 }
                 _ => {
                     let which = ctx.src.below(4) as u8;
